@@ -141,7 +141,8 @@ func verifNewCache() cache.CacheInterface[bool] {
 
 // does the ABI decoder hand an empty key list over as nil or as an empty slice?  (measured once, passed to the model)
 func verifEmptyKeysNil(sim *verifEthSim, r *vrng) (bool, error) {
-	sim.set([][]eth_common.Address{{eth_common.BytesToAddress(r.bytes(20))}}, false)
+	// (a chain whose set 1 exists and has no keys: an index the chain does not have is not fetched at all)
+	sim.set([][]eth_common.Address{{eth_common.BytesToAddress(r.bytes(20))}, {}}, false)
 	c := make(chan *common.GuardianSet, 8)
 	gs := guardiansets.NewGuardianSets([]*common.GuardianSet{{Keys: sim.sets[0], Index: 0}}, sim.url, zap.NewNop(), time.Hour,
 		eth_common.HexToAddress("0x0290FB167208Af455bB137780163b7B7a9a10C16"), c)
@@ -166,7 +167,7 @@ func TestVerifC19Push(t *testing.T) {
 	defer sim.close()
 	emptyNil, err := verifEmptyKeysNil(sim, r)
 	if err != nil {
-		o.emit(map[string]interface{}{"k": "probe", "sc": -1, "mon": []string{"GetGuardianSet(1) on a store holding set 0 with a chain holding set 0 only failed: " + err.Error()}})
+		o.emit(map[string]interface{}{"k": "probe", "sc": -1, "mon": []string{"GetGuardianSet(1) on a store holding set 0 with a chain whose set 1 has no keys failed: " + err.Error()}})
 	}
 	scenarios := 50
 	if verifThorough() {
@@ -491,14 +492,17 @@ func TestVerifC19Push(t *testing.T) {
 				g = int(v.GuardianSetIndex)
 				// independent bookkeeping: what the store will hold for the indices it has to learn now
 				if g > cur && !failing {
-					for i := cur + 1; i <= g; i++ {
-						if i < chainLen {
-							known[i] = hist[i]
-						} else {
-							known[i] = []eth_common.Address{}
-						}
+					// only the sets the chain has are learned (the fetched range is capped at the contract's current index)
+					top := g
+					if top > chainLen-1 {
+						top = chainLen - 1
 					}
-					cur = g
+					for i := cur + 1; i <= top; i++ {
+						known[i] = hist[i]
+					}
+					if top > cur {
+						cur = top
+					}
 				}
 				qlenBefore := len(queue)
 				var perr error
